@@ -30,3 +30,42 @@ fn bignum_cbor_roundtrip() {
         Err(_) => { assert!(false, "BigNum decode failed"); }
     }
 }
+
+fn int_roundtrip_ok(v: i128) -> bool {
+    let x = Int(v);
+    let mut se = cbor_event::se::Serializer::new_vec();
+    match cbor_event::se::Serialize::serialize(&x, &mut se) {
+        Ok(_) => {}
+        Err(_) => { return false; }
+    }
+    let bytes = se.finalize();
+    let mut de = cbor_event::de::Deserializer::from(std::io::Cursor::new(bytes));
+    match <Int as crate::serialization::traits::Deserialize>::deserialize(&mut de) {
+        Ok(w) => w.0 == v,
+        Err(_) => false,
+    }
+}
+
+/// C14/C01: Int survives its CBOR encoding exactly over its WHOLE range -2^64 ..= 2^64-1 (real cbor_event, bit-precise)
+#[kani::proof]
+#[kani::stub(alloc::fmt::format, stub_format)]
+#[kani::unwind(10)]
+fn int_cbor_roundtrip_full_range() {
+    let v: i128 = kani::any();
+    kani::assume(v >= -(u64::MAX as i128) - 1 && v <= u64::MAX as i128);
+    assert!(int_roundtrip_ok(v));
+}
+
+/// quick-tier cut: the width-class and sign boundaries only (concrete values; a regression guard, labelled bounded)
+#[kani::proof]
+#[kani::stub(alloc::fmt::format, stub_format)]
+#[kani::unwind(10)]
+fn int_cbor_roundtrip_boundaries() {
+    let sel: u8 = kani::any();
+    kani::assume(sel < 12);
+    let v: i128 = match sel {
+        0 => 0, 1 => -1, 2 => 23, 3 => -24, 4 => -25, 5 => i64::MAX as i128, 6 => i64::MIN as i128,
+        7 => i64::MIN as i128 - 1, 8 => u64::MAX as i128, 9 => -(u64::MAX as i128) - 1, 10 => -(u64::MAX as i128), _ => (i64::MAX as i128) + 1,
+    };
+    assert!(int_roundtrip_ok(v));
+}
